@@ -1,159 +1,195 @@
 (* C05: the metadynamics bias is the sum of the hills deposited on schedule
-   (statements only; model in MetaModel.v, specification and proofs in MetaProofs.v).
+   (statements only; model in MetaModel.v, specification in MetaSpec.v, proofs in MetaGeom.v and MetaProofs.v).
 
-   Reading guide.  [final_state Rops c hist] is the state of the model of colvarbias_meta after the
-   history [hist] of engine steps (step number, relative step, repeated-step flag, variable values);
-   [out_energy c hist i] / [out_force c hist i k] are the energy and the force on variable k that
-   update() returns at the next step i.  The specification keeps only the list of hills deposited so
-   far, split into those already tabulated ([s_tab]) and those not yet ([s_pend]):
-     eligible c i      = i_it mod newHillFrequency = 0, data may be accumulated (relative step > 0 and
-                         not a repeated step, or stepZeroData), newHillFrequency > 0
+   Reading guide.  A history is a list of events: [EStep i] (a step of the engine: step number, relative step,
+   repeated-step flag, the values of the variables, each a list of components), [ESave] (the state is written),
+   [ERestart None] (the state is written and read by a fresh instance with the same configuration),
+   [ERestart (Some g)] (the same with rebinGrids on and the new grid boundaries g) or [EReload] (the state is written
+   and read back by the same instance, which already holds hills).
+   [final_state Rops c hist] is the state of the model of colvarbias_meta after the history;
+   [out_energy c hist i] / [out_force c hist i k] are the energy and the force on variable k (a list of components)
+   that update() returns at the next step i.  The specification keeps only the list of hills deposited so far,
+   split into those already tabulated ([s_tab]) and those not yet ([s_pend]), and the geometry of the grids:
+     eligible c i      = i_it mod newHillFrequency = 0, data may be accumulated (relative step > 0 and not a
+                         repeated step, or stepZeroData), newHillFrequency > 0
      spec_height c s x = hillWeight, times exp(-V/(k dT)) with V = spec_energy c s x when well-tempered
-     spec_energy c s x = inside the grid:  sum_{h in s_tab} K_h(centre of the bin of x) + sum_{h in s_pend} K_h(x)
-                         outside / no grids: sum over all hills of K_h(x)
-     K_h(x)            = W_h * exp(-1/2 sum_i d_i^2/sigma_i^2), d_i the (nearest-image) difference,
-                         set to 0 when the exponent exceeds 23 (the kernel as implemented)
-   Side conditions: [no_expand c] (no variable has expandBoundaries), [wt_cfg_ok c] (not well-tempered,
-   or no grids, or gridsUpdateFrequency divides newHillFrequency), [wt_dep_inside c i] (a well-tempered
-   deposit with grids happens inside the grid).  Each is necessary: see the _refuted theorems. *)
-From Coq Require Import ZArith List Bool Reals Lia.
-From CV Require Import Base.Num Base.RNum C15.GridModel C05.MetaModel C05.MetaProofs.
+     spec_energy c s x = on the grid:  sum_{h in s_tab} K_h(centre of the bin of x) + sum_{h in s_pend} K_h(x)
+                         off the grid / no grids: sum over all hills of K_h(x)
+                         (the bin of x is wrapped along the dimensions in which the grid is periodic)
+     K_h(x)            = W_h * exp(-1/2 sum_i D_i(x_i,c_i)/sigma_i^2), D_i the squared distance of variable i
+                         (nearest image for a periodic scalar, Euclidean for a 3-vector, squared angle for a unit
+                         vector), set to 0 when the exponent exceeds 23 (the kernel as implemented)
+     spec_expand       = expandBoundaries: the grid grows by whole bins (next_geom)
+   Premises: [cfg_ok c] (positive sigmas and widths, sigma = width*hillWidth/2 when hillWidth is given; with grids:
+   scalar variables, upper = lower + nx*width, no expandBoundaries on a periodic variable) and [history_ok c hist]:
+   with grids, every step has one value per variable, not beyond a boundary declared hard and not beyond a grid that
+   covers part of the range of a periodic variable ([adm]), and a rebinning restart happens onto well-formed
+   boundaries, either with keepHills (grids recomputed from the hills) and every hill at least min_buffer bins inside
+   the expandable edges of the new grid (vacuous without expandBoundaries), or without keepHills (old grids mapped
+   onto the new ones) onto the current grids extended by whole bins where expandBoundaries allows ([rebin_ok]).  Nothing is assumed without grids.  [plain_history_ok]: a list of
+   admissible steps, saves and plain restarts is such a history.
+   All statements hold for the code with the six `fix:` commits of branch fix-C05 (known_findings.txt); the
+   witnesses of the defects they repair are replayed by props/C05/check.py. *)
+From Coq Require Import ZArith List Bool Reals Lia Lra.
+From CV Require Import Base.Num Base.RNum C15.GridModel C05.MetaModel C05.MetaSpec C05.MetaGeom C05.MetaProofs C05.MetaExamples.
 Import ListNotations.
 
-(* Schedule: the explicit hill list of the implementation is the list of deposited hills (those not
-   yet tabulated after new_hills_begin; all of them when keepHills is on or grids are off), for every
-   history and every segmentation into runs, and no grid element outside the grid is ever read. *)
-Theorem C05_schedule : forall (c : cfgR) (hist : list inR),
-  no_expand c -> wt_cfg_ok c -> Forall (wt_dep_inside c) hist ->
+(* Energy: at every step, on and off the grid, with and without grids, well-tempered or not, whatever
+   gridsUpdateFrequency, keepHills, expandBoundaries, run boundaries, state saves, restarts and rebinning. *)
+Theorem C05_energy : forall (c : cfgR) (hist : list eventR) (i : inR),
+  cfg_ok c -> history_ok c (hist ++ [EStep i]) ->
+  out_energy c hist i = spec_energy c (spec_run c (hist ++ [EStep i])) (i_x i).
+Proof. exact energy_holds. Qed.
+Print Assumptions C05_energy.
+
+(* Force on variable k, component j. *)
+Theorem C05_force : forall (c : cfgR) (hist : list eventR) (i : inR) (k j : nat),
+  cfg_ok c -> history_ok c (hist ++ [EStep i]) -> (k < length (c_vars c))%nat ->
+  nth j (out_force c hist i k) 0%R = spec_force c (spec_run c (hist ++ [EStep i])) (i_x i) k j.
+Proof. exact force_holds. Qed.
+Print Assumptions C05_force.
+
+(* Schedule: the explicit hill list of the implementation is the list of deposited hills not yet tabulated (after
+   new_hills_begin), preceded by the tabulated ones when keepHills is on (without keepHills: by some of them, namely
+   none, or after a restart those near the grid's edges until the next projection); the geometry is the specified one. *)
+Theorem C05_schedule : forall (c : cfgR) (hist : list eventR),
+  cfg_ok c -> history_ok c hist ->
   st_new (final_state Rops c hist) = s_pend (spec_run c hist) /\
-  st_old (final_state Rops c hist) = (if c_keep c then s_tab (spec_run c hist) else []) /\
-  st_ub (final_state Rops c hist) = false.
+  (c_keep c = true -> st_old (final_state Rops c hist) = s_tab (spec_run c hist)) /\
+  Dropped (fun _ => True) (s_tab (spec_run c hist)) (st_old (final_state Rops c hist)) /\
+  st_geom (final_state Rops c hist) = s_geom (spec_run c hist).
 Proof. exact schedule_holds. Qed.
 Print Assumptions C05_schedule.
 
-(* ... where the deposited hills are: one hill per eligible step, centred at the values of that step,
-   of height hillWeight (times the well-tempered factor at the deposition point) *)
-Theorem C05_deposited : forall (c : cfgR) (hist : list inR) (i : inR),
-  s_all (spec_run c (hist ++ [i])) =
+(* ... where the deposited hills are: one hill per eligible step, centred at the values of that step, of height
+   hillWeight (times the well-tempered factor of the bias at the deposition point, on the grid as it is after the
+   expansion of that step); writing the state deposits nothing *)
+Theorem C05_deposited : forall (c : cfgR) (hist : list eventR) (i : inR),
+  s_all (spec_run c (hist ++ [EStep i])) =
   s_all (spec_run c hist) ++
-  (if eligible c i then [mkHill (i_it i) (spec_height c (spec_run c hist) (i_x i)) (i_x i)] else []).
+  (if eligible c i
+   then [mkHill (i_it i) (spec_height c (spec_expand c (spec_run c hist) (i_x i)) i) (i_x i)] else []).
 Proof. exact deposited_snoc. Qed.
 Print Assumptions C05_deposited.
 
-Theorem C05_deposited_plain : forall (c : cfgR) (hist : list inR), c_wt c = false ->
-  s_all (spec_run c hist) = map (fun i => mkHill (i_it i) (c_weight c) (i_x i)) (filter (eligible c) hist).
+Theorem C05_deposited_save : forall (c : cfgR) (hist : list eventR),
+  s_all (spec_run c (hist ++ [ESave])) = s_all (spec_run c hist).
+Proof. exact deposited_save. Qed.
+Print Assumptions C05_deposited_save.
+
+Theorem C05_deposited_restart : forall (c : cfgR) (hist : list eventR) (r : option (list boundR)),
+  s_all (spec_run c (hist ++ [ERestart r])) = s_all (spec_run c hist).
+Proof. exact deposited_restart. Qed.
+Print Assumptions C05_deposited_restart.
+
+Theorem C05_deposited_plain : forall (c : cfgR) (hist : list eventR), c_wt c = false -> c_eb c = false ->
+  s_all (spec_run c hist) =
+  map (fun i => mkHill (i_it i) (c_weight c) (i_x i)) (filter (eligible c) (steps_of hist)).
 Proof. exact deposited_plain. Qed.
 Print Assumptions C05_deposited_plain.
 
-(* ... and they are tabulated at the multiples of gridsUpdateFrequency *)
-Theorem C05_tabulated : forall (c : cfgR) (hist : list inR) (i : inR), c_use_grids c = true ->
-  s_pend (spec_run c (hist ++ [i])) = (if (i_it i mod c_gfreq c =? 0)%Z then [] else
+(* ... and they are tabulated at the multiples of gridsUpdateFrequency and when the state is written *)
+Theorem C05_tabulated : forall (c : cfgR) (hist : list eventR) (i : inR), c_use_grids c = true ->
+  s_pend (spec_run c (hist ++ [EStep i])) = (if (i_it i mod c_gfreq c =? 0)%Z then [] else
      s_pend (spec_run c hist) ++
-     (if eligible c i then [mkHill (i_it i) (spec_height c (spec_run c hist) (i_x i)) (i_x i)] else [])).
+     (if eligible c i
+      then [mkHill (i_it i) (spec_height c (spec_expand c (spec_run c hist) (i_x i)) i) (i_x i)] else [])).
 Proof. exact tabulated_snoc. Qed.
 Print Assumptions C05_tabulated.
 
-(* Every bin of the energy grid holds the sum of the tabulated hills at the centre of the bin, every
-   bin of the gradient grid the sum of their gradients (= minus the forces) there. *)
-Theorem C05_grid_is_projected_sum : forall (c : cfgR) (hist : list inR),
-  no_expand c -> wt_cfg_ok c -> Forall (wt_dep_inside c) hist ->
-  forall ix : list Z,
+Theorem C05_tabulated_save : forall (c : cfgR) (hist : list eventR), c_use_grids c = true ->
+  s_pend (spec_run c (hist ++ [ESave])) = [].
+Proof. exact tabulated_save. Qed.
+Print Assumptions C05_tabulated_save.
+
+Theorem C05_tabulated_restart : forall (c : cfgR) (hist : list eventR) (r : option (list boundR)),
+  c_use_grids c = true -> s_pend (spec_run c (hist ++ [ERestart r])) = [].
+Proof. exact tabulated_restart. Qed.
+Print Assumptions C05_tabulated_restart.
+
+(* rebinGrids: after the restart the grids have the new boundaries and every hill deposited so far is tabulated on
+   them (C05_grid_is_projected_sum then says that every bin of the new grids holds the sum of all hills there) *)
+Theorem C05_rebin_from_hills : forall (c : cfgR) (hist : list eventR) (g' : list boundR), c_use_grids c = true ->
+  s_geom (spec_run c (hist ++ [ERestart (Some g')])) = g' /\
+  s_tab (spec_run c (hist ++ [ERestart (Some g')])) = s_all (spec_run c hist).
+Proof. exact rebin_geometry. Qed.
+Print Assumptions C05_rebin_from_hills.
+
+(* Every bin of the energy grid holds the sum of the tabulated hills at the centre of the bin, every bin of the
+   gradient grid the sum of their gradients (= minus the forces) there -- also the bins added by expandBoundaries. *)
+Theorem C05_grid_is_projected_sum : forall (c : cfgR) (hist : list eventR),
+  cfg_ok c -> history_ok c hist ->
+  forall ix : list Z, index_ok (gsizes (s_geom (spec_run c hist))) ix = true ->
     st_e (final_state Rops c hist) ix =
-      Esum (c_vars c) (s_tab (spec_run c hist)) (centre Rops (c_vars c) (c_geom0 c) ix) /\
-    forall k : nat, st_g (final_state Rops c hist) ix k =
-      (- Fsum (c_vars c) (s_tab (spec_run c hist)) (centre Rops (c_vars c) (c_geom0 c) ix) k)%R.
+      Esum (c_vars c) (s_tab (spec_run c hist)) (centre Rops (c_vars c) (s_geom (spec_run c hist)) ix) /\
+    forall k : nat, (k < length (c_vars c))%nat -> st_g (final_state Rops c hist) ix k =
+      (- Fsum (c_vars c) (s_tab (spec_run c hist)) (centre Rops (c_vars c) (s_geom (spec_run c hist)) ix) k 0)%R.
 Proof. exact grid_is_projected_sum. Qed.
 Print Assumptions C05_grid_is_projected_sum.
 
-(* Inside the grid (or without grids) the energy and the force returned at every step are those of
-   the specification; keepHills does not occur in the specification. *)
-Theorem C05_energy_inside_grid : forall (c : cfgR) (hist : list inR) (i : inR),
-  no_expand c -> wt_cfg_ok c -> Forall (wt_dep_inside c) (hist ++ [i]) ->
-  in_grid c (i_x i) = true \/ c_use_grids c = false ->
-  out_energy c hist i = spec_energy c (spec_run c (hist ++ [i])) (i_x i).
-Proof. exact energy_inside_grid. Qed.
-Print Assumptions C05_energy_inside_grid.
+(* expandBoundaries: the grids only grow from the boundaries of the (last) configuration, by whole bins on the same
+   lattice, only along variables with expandBoundaries and never beyond a boundary declared hard. *)
+Theorem C05_expand_lattice : forall (c : cfgR) (hist : list eventR),
+  cfg_ok c -> history_ok c hist -> c_use_grids c = true ->
+  All3 (fun v b b' => gstep v b b') (c_vars c) (final_base c hist) (s_geom (spec_run c hist)).
+Proof. exact geometry_grows. Qed.
+Print Assumptions C05_expand_lattice.
 
-Theorem C05_force_inside_grid : forall (c : cfgR) (hist : list inR) (i : inR) (k : nat),
-  no_expand c -> wt_cfg_ok c -> Forall (wt_dep_inside c) (hist ++ [i]) ->
-  in_grid c (i_x i) = true \/ c_use_grids c = false -> (k < length (c_vars c))%nat ->
-  out_force c hist i k = spec_force c (spec_run c (hist ++ [i])) (i_x i) k.
-Proof. exact force_inside_grid. Qed.
-Print Assumptions C05_force_inside_grid.
+(* keepHills changes neither the energy nor the forces (for a history admissible with both settings: a rebinning
+   restart needs keepHills). *)
+Theorem C05_keep_hills_irrelevant : forall (c : cfgR) (b : bool) (hist : list eventR) (i : inR),
+  cfg_ok c -> history_ok c (hist ++ [EStep i]) -> history_ok (set_keep c b) (hist ++ [EStep i]) ->
+  out_energy (set_keep c b) hist i = out_energy c hist i /\
+  forall k j, (k < length (c_vars c))%nat ->
+    nth j (out_force (set_keep c b) hist i k) 0%R = nth j (out_force c hist i k) 0%R.
+Proof. exact keep_hills_irrelevant. Qed.
+Print Assumptions C05_keep_hills_irrelevant.
 
-(* Outside the grid.  FULL STATEMENT (false of the code, see C05_outside_grid_refuted):
-     forall c hist i, no_expand c -> wt_cfg_ok c -> Forall (wt_dep_inside c) (hist ++ [i]) ->
-       c_use_grids c = true -> in_grid c (i_x i) = false ->
-       out_energy c hist i = spec_energy c (spec_run c (hist ++ [i])) (i_x i).
-   What the implementation computes: the hills recorded in hills_off_grid (those deposited within
-   3*floor(hillWidth)+1 bins of a non-periodic, non-hard edge) plus the hills not yet tabulated. *)
-Theorem C05_outside_grid_implemented : forall (c : cfgR) (hist : list inR) (i : inR),
-  no_expand c -> wt_cfg_ok c -> Forall (wt_dep_inside c) (hist ++ [i]) ->
-  c_use_grids c = true -> in_grid c (i_x i) = false ->
-  out_energy c hist i =
-    (Esum (c_vars c) (filter (near c) (s_all (spec_run c (hist ++ [i])))) (i_x i) +
-     Esum (c_vars c) (s_pend (spec_run c (hist ++ [i]))) (i_x i))%R.
-Proof. exact outside_grid_implemented. Qed.
-Print Assumptions C05_outside_grid_implemented.
+(* writeHillsTrajectory: the records buffered since the instance was created are the hills deposited since then, one
+   per hill, in order, with the step, height and centre of the deposition (spec_traj) *)
+Theorem C05_hills_trajectory : forall (c : cfgR) (hist : list eventR),
+  cfg_ok c -> history_ok c hist -> st_traj (final_state Rops c hist) = spec_traj c hist.
+Proof. exact trajectory_holds. Qed.
+Print Assumptions C05_hills_trajectory.
 
-(* It coincides with the specification when no dropped hill and no untabulated hill reaches x. *)
-Theorem C05_outside_grid_partial : forall (c : cfgR) (hist : list inR) (i : inR),
-  no_expand c -> wt_cfg_ok c -> Forall (wt_dep_inside c) (hist ++ [i]) ->
-  c_use_grids c = true -> in_grid c (i_x i) = false ->
-  (forall h, In h (s_all (spec_run c (hist ++ [i]))) -> near c h = false -> K (c_vars c) h (i_x i) = 0%R) ->
-  (forall h, In h (s_pend (spec_run c (hist ++ [i]))) -> K (c_vars c) h (i_x i) = 0%R) ->
-  out_energy c hist i = spec_energy c (spec_run c (hist ++ [i])) (i_x i).
-Proof. exact outside_grid_partial. Qed.
-Print Assumptions C05_outside_grid_partial.
+(* a list of admissible steps, saves and plain restarts is an admissible history *)
+Theorem C05_plain_history_ok : forall (c : cfgR) (hist : list eventR),
+  Forall (plain_event c) hist -> history_ok c hist.
+Proof. exact plain_history_ok. Qed.
+Print Assumptions C05_plain_history_ok.
 
-(* FINDING (outside-grid:hills-far-from-edges-dropped).  The full outside-grid statement is false:
-   with gaussianSigmas (hill_width stays 0, so the retained margin is one bin) a hill of sigma = 1 bin
-   deposited 1.5 bins inside the lower edge is not in hills_off_grid; a quarter of a bin outside the
-   grid the implementation returns 0 where the hill is worth exp(-49/32).  Witness w_cfg, [w_i1], w_i2
-   (MetaProofs.v); replayed on the implementation by props/C05/check.py (witness_outside). *)
-Theorem C05_outside_grid_refuted :
-  exists (c : cfgR) (hist : list inR) (i : inR),
-    no_expand c /\ wt_cfg_ok c /\ Forall (wt_dep_inside c) (hist ++ [i]) /\
-    c_use_grids c = true /\ in_grid c (i_x i) = false /\
-    out_energy c hist i <> spec_energy c (spec_run c (hist ++ [i])) (i_x i).
-Proof. exact outside_grid_refuted. Qed.
-Print Assumptions C05_outside_grid_refuted.
-
-(* FINDING (wt:deposit-outside-grid-reads-out-of-range).  FULL STATEMENT (false of the code):
-     forall c hist, no_expand c -> wt_cfg_ok c -> st_ub (final_state Rops c hist) = false.
-   A well-tempered deposit with grids while the variable is outside the grid reads
-   hills_energy->value(curr_bin) without index_ok: the premise [wt_dep_inside] of C05_schedule cannot
-   be dropped.  Witness u_cfg, [u_i]; replayed by check.py (witness_wt_outside). *)
-Theorem C05_wt_deposit_outside_grid_refuted :
-  exists (c : cfgR) (hist : list inR),
-    no_expand c /\ wt_cfg_ok c /\ st_ub (final_state Rops c hist) = true.
-Proof. exact wt_outside_refuted. Qed.
-Print Assumptions C05_wt_deposit_outside_grid_refuted.
-
-(* non-vacuity: the premises of the theorems above are satisfiable, with a hill deposited and
-   tabulated, a step inside and a step outside the grid, a well-tempered deposit inside the grid,
-   and a step so far outside that the premises of C05_outside_grid_partial hold *)
+(* non-vacuity: the premises are satisfiable by configurations with grids (a hill deposited and tabulated, a step
+   on and a step off the grid), with expandBoundaries, with a periodic grid, well-tempered, and without grids on a
+   3-vector and a unit-vector variable *)
 Example C05_premises_satisfiable :
-  no_expand w_cfg /\ wt_cfg_ok w_cfg /\ Forall (wt_dep_inside w_cfg) ([w_i1] ++ [w_i2]) /\
-  in_grid w_cfg (i_x w_i1) = true /\ in_grid w_cfg (i_x w_i2) = false /\ c_use_grids w_cfg = true /\
-  eligible w_cfg w_i1 = true /\ (0 < length (c_vars w_cfg))%nat /\
-  spec_run w_cfg ([w_i1] ++ [w_i2]) = mkS [mkHill 2%Z 1%R [(3/2)%R]] [].
-Proof.
-  destruct w_hyps as [H1 [H2 H3]].
-  repeat split; try assumption; try reflexivity; [exact w_inside|exact w_outside|cbn; lia].
-Qed.
+  cfg_ok w_cfg /\ history_ok w_cfg ([EStep w_i1] ++ [EStep w_i2]) /\
+  in_grid w_cfg (c_geom0 w_cfg) (i_x w_i1) = true /\ in_grid w_cfg (c_geom0 w_cfg) (i_x w_i2) = false /\
+  eligible w_cfg w_i1 = true /\
+  spec_run w_cfg ([EStep w_i1] ++ [EStep w_i2]) = mkS [mkHill 2%Z (1 * (1 * 1))%R [[(3/2)%R]]] [] (c_geom0 w_cfg).
+Proof. exact w_example. Qed.
 
-Example C05_wt_premises_satisfiable :
-  no_expand u_cfg /\ wt_cfg_ok u_cfg /\ c_wt u_cfg = true /\ c_use_grids u_cfg = true /\
-  eligible u_cfg u_in = true /\ wt_dep_inside u_cfg u_in /\ in_grid u_cfg (i_x u_in) = true.
-Proof.
-  destruct u_inside_dep as [H1 [H2 [H3 [H4 H5]]]].
-  repeat split; try assumption; try reflexivity. right; right; exists 1%Z; reflexivity.
-Qed.
+Example C05_premises_satisfiable_expand_periodic_wt :
+  cfg_ok x_cfg /\ history_ok x_cfg [EStep x_i1; ESave; EStep x_i2; ERestart None; EStep x_i2] /\
+  c_wt x_cfg = true /\ existsb (@v_expand R) (c_vars x_cfg) = true /\ existsb (@v_gperiodic R) (c_vars x_cfg) = true.
+Proof. exact x_example. Qed.
 
-Example C05_partial_premises_satisfiable :
-  in_grid w_cfg (i_x w_i3) = false /\
-  (forall h, In h (s_all (spec_run w_cfg ([w_i1] ++ [w_i3]))) -> near w_cfg h = false -> K (c_vars w_cfg) h (i_x w_i3) = 0%R) /\
-  (forall h, In h (s_pend (spec_run w_cfg ([w_i1] ++ [w_i3]))) -> K (c_vars w_cfg) h (i_x w_i3) = 0%R) /\
-  s_all (spec_run w_cfg ([w_i1] ++ [w_i3])) <> [].
-Proof. exact w_far. Qed.
+Example C05_premises_satisfiable_vectors :
+  cfg_ok v_cfg /\ history_ok v_cfg [EStep v_i1; ERestart None; EStep v_i2] /\ c_use_grids v_cfg = false /\
+  map (@v_kind R) (c_vars v_cfg) = [KVec3; KUnit3; KQuat] /\ eligible v_cfg v_i1 = true.
+Proof. exact v_example. Qed.
+
+Example C05_premises_satisfiable_rebin :
+  cfg_ok r_cfg /\ history_ok r_cfg [EStep w_i1; ERestart (Some r_g); EStep w_i2] /\
+  spec_run r_cfg [EStep w_i1; ERestart (Some r_g); EStep w_i2] = mkS [mkHill 2%Z (1 * (1 * 1))%R [[(3/2)%R]]] [] r_g /\
+  in_grid r_cfg r_g (i_x w_i2) = true.
+Proof. exact r_example. Qed.
+
+Example C05_premises_satisfiable_ebmeta :
+  cfg_ok e_cfg /\ history_ok e_cfg [EStep w_i1; EStep w_i2] /\ c_eb e_cfg = true /\ c_wt e_cfg = true /\
+  eligible e_cfg w_i1 = true /\ eb_factor e_cfg w_i1 = (3 / 4)%R.
+Proof. exact e_example. Qed.
+
+Example C05_premises_satisfiable_reload_rebin_from_grids :
+  cfg_ok n_cfg /\ history_ok n_cfg [EStep w_i1; EReload; ERestart (Some n_g); EStep w_i1] /\
+  c_keep n_cfg = false /\ existsb (@v_expand R) (c_vars n_cfg) = true.
+Proof. exact n_example. Qed.
